@@ -42,7 +42,7 @@ def classify(component, what, case):
         if any(cc.model_broken(t) for t in pred) and ("null pointer" in err or "SEGV" in err) and \
                 any(f in err for f in ("lys_unres_dep_sets_create_mod_r", "lys_has_compiled_import_r", "lys_has_dep_mods", "lys_has_compiled",
                                        "lys_has_recompiled", "lys_precompile", "lysp_", "lys_compile")):
-            return "F54"
+            return "F134"
         touch = False
         try:
             touch = b"\nT 1\n" in bytes.fromhex(case.get("line").split()[3])
@@ -58,15 +58,15 @@ def classify(component, what, case):
     if k == "data-stale":
         return "F24"
     if k == "latest-lost":
-        return "F50"
+        return "F130"
     if k == "batch-dropped":
-        return "F51"
+        return "F131"
     if k == "later-differs":
-        return {"features": "F4", "imported-rev": "F52", "latest": "F50", "batch": "F51", "debris": "F54"}.get(case.get("leftover"))
+        return {"features": "F4", "imported-rev": "F132", "latest": "F130", "batch": "F131", "debris": "F134"}.get(case.get("leftover"))
     if k == "debris":
-        return "F54"
+        return "F134"
     if k == "compiled-changed" and case.get("was_uncompiled"):
-        return "F57"
+        return "F137"
     return None
 
 
@@ -241,7 +241,7 @@ def laws(cx, h, line, impl, model):
                 # compiled schema
                 cd = [m["key"] for m, p in zip(s.mods, prev.mods) if m["fnv"] != p["fnv"]]
                 if cd and not fd:
-                    # implemented but never compiled by the successful call that implemented it (F57): the failed call's recompilation does it
+                    # implemented but never compiled by the successful call that implemented it (F137): the failed call's recompilation does it
                     unc = all(p["impl"] and p["fnv"] == "-" for m, p in zip(s.mods, prev.mods) if m["fnv"] != p["fnv"]) and not pending_at(h, j, si)
                     cx.fail("ctx", "compiled schema differs after a failed call", dict(case, kind="compiled-changed", modules=cd, was_uncompiled=unc))
                 # latest revision
